@@ -36,6 +36,8 @@ def run(ctx):
     ctx.rule("SETUP", "a recycle option of the caller is forced off; cause_element is an object array (no truncation of type names); the "
                       "write_to_net loop writes every monitored table; cause_index is only compared with the index of the outaged table")
     cg.rule_setup(ctx, "SETUP", fi)
+    if cg.rule_dup_keyword(ctx, "SETUP", fi) < 2:
+        ctx.fail("run_contingency: fewer than 2 calls forwarding **kwargs found")
     if cg.rule_cause_index(ctx, "SETUP", fu) < 1:
         ctx.fail("_update_contingency_results: comparison with cause_index not found")
 
